@@ -45,7 +45,7 @@ PROPS["C16"] = {
             _c16_pm("2", []),
             _c16_pm("1", ["^a$", "=b$"]),
             _c16_pm("1", [";k=", "^a;"]),
-            _c16_pm("2", ["^a$", "=b$"], tier="thorough"),
+            _c16_pm("2", ["^a$", "=b$"]),
             _c16_pm("2", [";k=", "^a"], tier="thorough"),
         ]},
         {"pkg": "persister", "hdir": "persister", "specs": [
